@@ -137,6 +137,58 @@ fn gcd_witness(ev: &mut Value, a: i128, b: i128) -> i128 {
     g
 }
 
+/// gcd / lcm at the top of a type's range (operands in the upper half, next to MAX and to 2^(k-1)), where
+/// doubling a remainder or taking an absolute value through the signed twin would overflow; `max` is the largest
+/// operand used, lcm is only requested when it fits
+fn edge(t: &mut TraceWriter, name: &str, max: i128, signed: bool,
+        g: &dyn Fn(i128, i128) -> Result<i128, String>, l: &dyn Fn(i128, i128) -> Result<i128, String>) {
+    let base = [max, max - 1, max - 2, max / 2, max / 2 + 1, max / 2 + 2, max / 3 * 2, max / 3 * 2 + 1, max / 4 * 3, max / 5 * 4 + 1, 0, 1, 2, 3, 6];
+    for (i, &x) in base.iter().enumerate() {
+        for (j, &y) in base.iter().enumerate() {
+            if x == 0 && y == 0 { continue; }
+            let (a, b) = if signed { match (i + j) % 4 { 0 => (x, y), 1 => (-x, y), 2 => (x, -y), _ => (-x, -y) } } else { (x, y) };
+            let mut ev = json!({"ev": "big", "fn": "gcd", "a": bi(a), "b": bi(b), "ty": name, "edge": true});
+            let gg = gcd_witness(&mut ev, a, b);
+            match g(a, b) { Ok(v) => ev["res"] = bi(v), Err(p) => ev["panic"] = json!(p) }
+            t.ev(ev);
+            // lcm = |a| / g * |b| fits?
+            if let Some(m) = (a.abs() / gg).checked_mul(b.abs()) {
+                if m <= max {
+                    let mut ev = json!({"ev": "big", "fn": "lcm", "a": bi(a), "b": bi(b), "ty": name, "edge": true});
+                    let gg = gcd_witness(&mut ev, a, b);
+                    ev["w_g"] = bi(gg);
+                    match l(a, b) { Ok(v) => ev["res"] = bi(v), Err(p) => ev["panic"] = json!(p) }
+                    t.ev(ev);
+                }
+            }
+        }
+    }
+}
+
+macro_rules! edge_ty {
+    ($t:ty, $tw:expr, $name:expr, $signed:expr) => {
+        edge(&mut $tw, $name, <$t>::MAX as i128, $signed,
+             &|a, b| catch(|| gcd(a as $t, b as $t) as i128), &|a, b| catch(|| lcm(a as $t, b as $t) as i128));
+    };
+}
+
+/// u128 above i128::MAX: pairs whose gcd has an evident witness
+fn edge_u128(t: &mut TraceWriter) {
+    for x in [u128::MAX, u128::MAX - 1, (1u128 << 127) + 1, 1u128 << 127, (1u128 << 127) + 6, u128::MAX / 3 * 2] {
+        for (y, gv, ca, cb, s, tt) in [(0u128, x, 1u128, 0u128, 1i128, 0i128), (x, x, 1, 1, 1, 0), (1, 1, x, 1, 0, 1)] {
+            let mut ev = json!({"ev": "big", "fn": "gcd", "a": bu(x), "b": bu(y), "ty": "u128", "edge": true,
+                                "w_ca": bu(ca), "w_cb": bu(cb), "w_s": bi(s), "w_t": bi(tt)});
+            match catch(|| gcd(x, y)) { Ok(v) => ev["res"] = bu(v), Err(p) => ev["panic"] = json!(p) }
+            t.ev(ev);
+            let mut ev = json!({"ev": "big", "fn": "gcd", "a": bu(y), "b": bu(x), "ty": "u128", "edge": true,
+                                "w_ca": bu(cb), "w_cb": bu(ca), "w_s": bi(tt), "w_t": bi(s)});
+            match catch(|| gcd(y, x)) { Ok(v) => ev["res"] = bu(v), Err(p) => ev["panic"] = json!(p) }
+            t.ev(ev);
+            let _ = gv;
+        }
+    }
+}
+
 pub fn record(seed: u64, tier: &str, out: &str) {
     let thorough = tier == "thorough";
     let mut rng = Rng::new(seed ^ 0xC11);
@@ -161,6 +213,20 @@ pub fn record(seed: u64, tier: &str, out: &str) {
         crttab!(i32, t, "i32", 12);
         crttab!(i128, t, "i128", 12);
     }
+    edge_ty!(i8, t, "i8", true);
+    edge_ty!(i16, t, "i16", true);
+    edge_ty!(i32, t, "i32", true);
+    edge_ty!(i64, t, "i64", true);
+    edge_ty!(isize, t, "isize", true);
+    edge_ty!(i128, t, "i128", true);
+    edge_ty!(u8, t, "u8", false);
+    edge_ty!(u16, t, "u16", false);
+    edge_ty!(u32, t, "u32", false);
+    edge_ty!(u64, t, "u64", false);
+    edge_ty!(usize, t, "usize", false);
+    // u128: up to i128::MAX through the common path, above it with hand-made witnesses
+    edge(&mut t, "u128", i128::MAX, false, &|a, b| catch(|| gcd(a as u128, b as u128) as i128), &|a, b| catch(|| lcm(a as u128, b as u128) as i128));
+    edge_u128(&mut t);
     let tables = t.events;
     // sampled large operands
     let n = if thorough { 6000 } else { 2400 };
